@@ -162,16 +162,16 @@ Qed.
 
 (* ---- PMT ---- *)
 
-Lemma pmt_loop_is l : forall bw err n,
-  wm_sim snd (writePMTSection_loop1 wdl l bw err n) (enc_pmt_ess l)
+Lemma pmt_loop_is l : forall bw n err,
+  wm_sim snd (writePMTSection_loop1 wdl l bw n err) (enc_pmt_ess l)
          (fun a => fst (fst a) = fold_left (fun x es => x + pmt_es_written es) l bw).
 Proof.
-  induction l as [|es l IH]; intros bw err n.
-  - cbn. exists (bw, err, n). repeat split.
+  induction l as [|es l IH]; intros bw n err.
+  - cbn. exists (bw, n, err). repeat split.
   - cbn [writePMTSection_loop1 enc_pmt_ess]. unfold enc_pmt_es. wsimpl.
     wfn_call (Hwdl (PMTElementaryStream_ElementaryStreamDescriptors es)); try wfail.
-    wm_call (IH (bw + 3 + (descriptors_written (PMTElementaryStream_ElementaryStreamDescriptors es) + 2)) ENil
-                (descriptors_written (PMTElementaryStream_ElementaryStreamDescriptors es) + 2)); try wfail.
+    wm_call (IH (bw + 3 + (descriptors_written (PMTElementaryStream_ElementaryStreamDescriptors es) + 2))
+                (descriptors_written (PMTElementaryStream_ElementaryStreamDescriptors es) + 2) ENil); try wfail.
     cbn [wm_sim fst snd]. exists va. split; [reflexivity|]. split.
     { cbn [fold_left]. rewrite Pa. f_equal. unfold pmt_es_written. lia. }
     split; [unfold wu8; wieq | wnd].
@@ -181,9 +181,9 @@ Lemma writePMTSection_is_model d : wfn_sim (writePMTSection wdl d) (enc_pmt_sect
 Proof.
   unfold writePMTSection, enc_pmt_section. wsimpl.
   wfn_call (Hwdl (PMTData_ProgramDescriptors d)); try wfail.
-  wm_call (pmt_loop_is (PMTData_ElementaryStreams d) (2 + (descriptors_written (PMTData_ProgramDescriptors d) + 2)) ENil
-             (descriptors_written (PMTData_ProgramDescriptors d) + 2)); try wfail.
-  destruct va as [[bw' e'] n']. wsimpl. cbn [fst] in Pa.
+  wm_call (pmt_loop_is (PMTData_ElementaryStreams d) (2 + (descriptors_written (PMTData_ProgramDescriptors d) + 2))
+             (descriptors_written (PMTData_ProgramDescriptors d) + 2) ENil); try wfail.
+  destruct va as [[bw' n'] e']. wsimpl. cbn [fst] in Pa.
   unfold wfn_sim. cbn [res_map wf_sim]. unfold wf_ok. cbn [fst snd]. rewrite app_nil_r. split.
   { unfold pmt_written. rewrite Pa. reflexivity. }
   split; [wieq | wnd].
